@@ -66,6 +66,31 @@ type ack struct {
 	// driver call indices of this update's transaction (dry run bookkeeping)
 	BeginIdx  int64 `json:"begin_idx"`
 	CommitIdx int64 `json:"commit_idx"`
+	// Side: not an ack of the history's own request but something another client obtained
+	// at the instant of the kill: "dup" = a duplicate of the in-flight request was
+	// acknowledged, "seen" = a read handed this checkpoint out.
+	Side string `json:"side,omitempty"`
+}
+
+// inflight is the request being served when the kill point is reached.
+type inflightReq struct {
+	logIdx int
+	logID  string
+	old    uint64
+	cp     []byte
+	proof  [][]byte
+}
+
+// recTarget remembers the request in flight.
+type recTarget struct {
+	vlib.WitnessTarget
+	cur *atomic.Pointer[inflightReq]
+}
+
+func (t recTarget) Update(ctx context.Context, logID string, old uint64, cp []byte, proof [][]byte, st *vlib.Step) {
+	t.cur.Store(&inflightReq{logIdx: st.Req.LogIdx, logID: logID, old: old, cp: cp, proof: proof})
+	t.WitnessTarget.Update(ctx, logID, old, cp, proof, st)
+	t.cur.Store(nil)
 }
 
 func c06Play() int {
@@ -83,8 +108,45 @@ func c06Play() int {
 	pipe := os.NewFile(3, "ackpipe")
 	var calls int64
 	var beginIdx, commitIdx int64 = -1, -1
+	var killing atomic.Bool
+	var cur atomic.Pointer[inflightReq]
+	var sideEnv *vlib.Env
+	var sideW *witness.Witness
+	// side requests: what other clients of the same process can obtain at the instant of the
+	// kill (they get 40 ms; on the one-connection store they normally just wait)
+	side := func() {
+		if sideW == nil || sideEnv == nil {
+			return
+		}
+		var mu sync.Mutex
+		emit := func(a ack) {
+			b, _ := json.Marshal(a)
+			mu.Lock()
+			_, _ = pipe.Write(append(b, '\n'))
+			mu.Unlock()
+		}
+		for li, id := range sideEnv.LogIDs {
+			go func(li int, id string) {
+				if b, err := sideW.GetCheckpoint(id); err == nil {
+					h := sideEnv.ScanCheckpoint(b)
+					emit(ack{Op: -1, Log: li, Verdict: vlib.VAccepted, Size: h.Size, Root: hex.EncodeToString(h.Root), Side: "seen"})
+				}
+			}(li, id)
+		}
+		if r := cur.Load(); r != nil && r.logIdx >= 0 {
+			go func() {
+				out, err := sideW.Update(context.Background(), r.logID, r.old, r.cp, r.proof)
+				if err == nil {
+					h := sideEnv.ScanCheckpoint(out)
+					emit(ack{Op: -1, Log: r.logIdx, Verdict: vlib.VAccepted, Size: h.Size, Root: hex.EncodeToString(h.Root), Side: "dup"})
+				}
+			}()
+		}
+		time.Sleep(40 * time.Millisecond)
+		mu.Lock() // no half-written line at the kill
+	}
 	vlib.Drv.SetHook(func(op, phase string) error {
-		if op == vlib.DOpen {
+		if op == vlib.DOpen || killing.Load() {
 			return nil
 		}
 		idx := atomic.LoadInt64(&calls)
@@ -101,6 +163,8 @@ func c06Play() int {
 			idx = idx - 1
 		}
 		if int(idx) == killAt && phase == killPhase {
+			killing.Store(true)
+			side()
 			_ = syscall.Kill(os.Getpid(), syscall.SIGKILL)
 			time.Sleep(10 * time.Second) // never reached
 		}
@@ -117,6 +181,7 @@ func c06Play() int {
 		fmt.Fprintln(os.Stderr, "c06play: witness.New:", err)
 		return 3
 	}
+	sideEnv, sideW = e, w
 	loops := 1
 	if n, _ := strconv.Atoi(os.Getenv("VERIF_C06_LOOPS")); n > 1 {
 		loops = n
@@ -134,7 +199,7 @@ func c06Play() int {
 	e.Case = c
 	opBase := 0
 	for l := 0; l < loops; l++ {
-		_, err = e.Exec(vlib.WitnessTarget{W: w}, vlib.RunOpts{NoSnapshots: true, AfterUpdate: func(e *vlib.Env, _ vlib.Target, st *vlib.Step) error {
+		_, err = e.Exec(recTarget{WitnessTarget: vlib.WitnessTarget{W: w}, cur: &cur}, vlib.RunOpts{NoSnapshots: true, AfterUpdate: func(e *vlib.Env, _ vlib.Target, st *vlib.Step) error {
 			a := ack{Op: from + opBase + st.Index, Log: st.Req.LogIdx, Verdict: st.Verdict, BeginIdx: atomic.LoadInt64(&beginIdx), CommitIdx: atomic.LoadInt64(&commitIdx)}
 			if st.Verdict == vlib.VAccepted {
 				h := e.ScanCheckpoint(st.Out)
@@ -272,7 +337,22 @@ type c06Model struct {
 	acks  []ack
 }
 
+// lastSide holds the side acks of the most recent runChild call of this goroutine's
+// crash run (returned separately to keep runChild's signature).
+func runChildSide(mode, casePath, dbPath, kill string, loops int, killAfter time.Duration, opRange ...int) (acks, side []ack, calls int, stdout []byte, state *os.ProcessState, err error) {
+	var sa []ack
+	acks, calls, stdout, state, err = runChildInner(&sa, mode, casePath, dbPath, kill, loops, killAfter, opRange...)
+	return acks, sa, calls, stdout, state, err
+}
+
 func runChild(mode, casePath, dbPath, kill string, loops int, killAfter time.Duration, opRange ...int) (acks []ack, calls int, stdout []byte, state *os.ProcessState, err error) {
+	var sa []ack
+	return runChildInner(&sa, mode, casePath, dbPath, kill, loops, killAfter, opRange...)
+}
+
+func runChildInner(sideOut *[]ack, mode, casePath, dbPath, kill string, loops int, killAfter time.Duration, opRange ...int) (acks []ack, calls int, stdout []byte, state *os.ProcessState, err error) {
+	var sideAcks []ack
+	defer func() { *sideOut = sideAcks }()
 	cmd := exec.Command(os.Args[0])
 	rng := []int{0, 0}
 	if len(opRange) == 2 {
@@ -308,6 +388,7 @@ func runChild(mode, casePath, dbPath, kill string, loops int, killAfter time.Dur
 	werr := cmd.Wait()
 	_ = werr
 	calls = -1
+	sideAcks = nil
 	for _, l := range lines {
 		if strings.HasPrefix(l, `{"calls"`) {
 			var m map[string]int
@@ -317,7 +398,11 @@ func runChild(mode, casePath, dbPath, kill string, loops int, killAfter time.Dur
 		}
 		var a ack
 		if json.Unmarshal([]byte(l), &a) == nil {
-			acks = append(acks, a)
+			if a.Side != "" {
+				sideAcks = append(sideAcks, a)
+			} else {
+				acks = append(acks, a)
+			}
 		}
 	}
 	if cmd.ProcessState != nil && cmd.ProcessState.ExitCode() == 3 {
@@ -464,6 +549,28 @@ func checkAfterCrash(e *vlib.Env, c *vlib.HistCase, full []ack, got []ack, dump 
 	return outcome, nil
 }
 
+// checkSide: whatever another client obtained from the process at the instant of the kill
+// (a duplicate of the in-flight request acknowledged, a checkpoint handed out by a read)
+// must be in force after the restart.
+func checkSide(e *vlib.Env, side []ack, dump dumpOut, what string) error {
+	for _, a := range side {
+		b64, present := dump.Rows[strconv.Itoa(a.Log)]
+		kind := "a concurrent read handed out"
+		if a.Side == "dup" {
+			kind = "a concurrent duplicate of the in-flight request was acknowledged with"
+		}
+		if !present {
+			return fmt.Errorf("%s: at the instant of the kill %s a cosigned checkpoint of size %d for log %d, but after restart the log has none", what, kind, a.Size, a.Log)
+		}
+		raw, _ := base64.StdEncoding.DecodeString(b64)
+		h := e.ScanCheckpoint(raw)
+		if h.Size < a.Size || (h.Size == a.Size && hex.EncodeToString(h.Root) != a.Root) {
+			return fmt.Errorf("%s: at the instant of the kill %s a cosigned checkpoint of size %d for log %d, but after restart the log is at size %d: the witness can now cosign a conflicting size-%d tree", what, kind, a.Size, a.Log, h.Size, a.Size)
+		}
+	}
+	return nil
+}
+
 var profC06 = vlib.Profile{
 	Prop: "C06", MinLogs: 1, MaxLogs: 3, MinOps: 1, MaxOps: 5,
 	Storages: []string{"sqlfile"}, MaxJump: 40, OtherLogPct: 35, Decorate: 10, NoReplay: true,
@@ -565,7 +672,7 @@ func runC06(c *vlib.HistCase, st *vlib.Stats, onlyPoint string) (bool, []string,
 			if k > 0 {
 				what += fmt.Sprintf(" (of the process started after op %d)", k)
 			}
-			got2, _, _, ps, err := runChild("c06play", casePath, dbp, fmt.Sprintf("%d:%s", p.k, p.phase), 1, 0, k, len(c.Ops))
+			got2, sideGot, _, _, ps, err := runChildSide("c06play", casePath, dbp, fmt.Sprintf("%d:%s", p.k, p.phase), 1, 0, k, len(c.Ops))
 			got := append(append([]ack{}, pre...), got2...)
 			if err != nil {
 				results[i] = res{p: p, err: fmt.Errorf("harness: %v", err)}
@@ -586,6 +693,9 @@ func runC06(c *vlib.HistCase, st *vlib.Stats, onlyPoint string) (bool, []string,
 				return
 			}
 			outcome, oerr := checkAfterCrash(e, c, full, got, dump, what)
+			if oerr == nil {
+				oerr = checkSide(e, sideGot, dump, what)
+			}
 			// inside an accepted update of a log that already had a checkpoint?
 			inside := false
 			j := len(got)
